@@ -295,7 +295,7 @@ pub fn generate(rng: &mut Rng, tier: Tier) -> Plan {
         let settle = match q.settle {
             Some(d) => {
                 if rng.chance(0.5) {
-                    Some(d + rng.i64_in(1, 30))
+                    Some((d + rng.i64_in(1, 30)).min(2_932_896))
                 } else {
                     None
                 }
@@ -347,7 +347,7 @@ pub fn generate(rng: &mut Rng, tier: Tier) -> Plan {
             let new_settle = match cur[0].settle {
                 Some(d) => {
                     if rng.chance(0.8) {
-                        Some(d + rng.i64_in(1, 40))
+                        Some((d + rng.i64_in(1, 40)).min(2_932_896))
                     } else {
                         None
                     }
